@@ -40,6 +40,7 @@ func Preset(prop string, adversarial bool, r *scen.Rand) *Params {
 	}
 	switch prop {
 	case "C01":
+		p.PreLinkP = 0.06 // a snapshot file that is a symbolic link to a golden file kept elsewhere
 		p.Alpha = Alpha{Plain: 4, Framing: 5, Structured: 2}
 		p.Envs = []map[string]string{envCI, envOff, envUpd, envClean}
 		// (one world in four changes some values next to the unchanged ones: a neighbour that
@@ -60,6 +61,7 @@ func Preset(prop string, adversarial bool, r *scen.Rand) *Params {
 		p.SortP = 0.7
 		p.ReplayP = 0.6
 	case "C02":
+		p.PreLinkP = 0.05 // a snapshot file that is a symbolic link to a golden file kept elsewhere
 		p.Counts = []int{1, 1, 1, 2, 3}
 		p.Alpha = Alpha{Plain: 5, Framing: 5, Structured: 2}
 		// mostly environments in which nothing may be updated; with UPDATE_SNAPS=true the calls
@@ -72,12 +74,15 @@ func Preset(prop string, adversarial bool, r *scen.Rand) *Params {
 		p.FaultP = 0.06 // ... nor next to disk faults, nor against a read-only file
 		p.ReplayP = 0.3
 	case "C03":
-		p.FaultP = 0.08 // a few worlds with disk faults: the narrow oracles of DESIGN.md 5.3 apply to the calls they hit
+		p.PreLinkP = 0.05 // a snapshot file that is a symbolic link to a golden file kept elsewhere
+		p.FaultP = 0.08   // a few worlds with disk faults: the narrow oracles of DESIGN.md 5.3 apply to the calls they hit
 		p.NonTestNames = true
 		p.Alpha = Alpha{Plain: 8, Framing: 1, Structured: 2}
-		p.Envs = []map[string]string{envOff, envCI, envUpd}
-		p.EditKinds = []string{"value", "shuffle", "addcall", "addtest"}
+		p.Envs = []map[string]string{envOff, envCI, envUpd, envClean}
+		p.EditKinds = []string{"value", "shuffle", "addcall", "addtest", "removecall", "skip"}
 		p.EditValueP = 0.25
+		p.CleanP = 0.25 // Clean's rewrite of a file is a rewrite too: the slots it does not remove keep their values
+		p.RunP = 0.2
 		p.Counts = []int{1, 2, 3}
 		p.RecordCount = []int{1, 2, 3}
 		p.ManyCallsP = 0.3
@@ -90,7 +95,8 @@ func Preset(prop string, adversarial bool, r *scen.Rand) *Params {
 		p.TasksP = 0.25
 		p.ReplayP = 0.8
 	case "C04":
-		p.FaultP = 0.08 // a few worlds with disk faults: the narrow oracles of DESIGN.md 5.3 apply to the calls they hit
+		p.PreLinkP = 0.06 // a snapshot file that is a symbolic link to a golden file kept elsewhere
+		p.FaultP = 0.08   // a few worlds with disk faults: the narrow oracles of DESIGN.md 5.3 apply to the calls they hit
 		p.Counts = []int{1, 1, 1, 2, 3}
 		p.Alpha = Alpha{Plain: 7, Framing: 3, Structured: 2}
 		p.Envs = []map[string]string{envUpd, envUpd, envOff}
@@ -102,7 +108,8 @@ func Preset(prop string, adversarial bool, r *scen.Rand) *Params {
 		p.PreEditP = 0.08
 		p.ReplayP = 1
 	case "C05":
-		p.FaultP = 0.08 // a few worlds with disk faults: the narrow oracles of DESIGN.md 5.3 apply to the calls they hit
+		p.PreLinkP = 0.05 // a snapshot file that is a symbolic link to a golden file kept elsewhere
+		p.FaultP = 0.08   // a few worlds with disk faults: the narrow oracles of DESIGN.md 5.3 apply to the calls they hit
 		p.Alpha = Alpha{Plain: 9, Framing: 1, Structured: 1}
 		p.Envs = allEnvs
 		p.UpdateOpt = 0.6
@@ -134,7 +141,8 @@ func Preset(prop string, adversarial bool, r *scen.Rand) *Params {
 		p.APIw = allAPIs(4, 2)
 		p.RecordTasksP = 0.3 // first use of files and directories by several tests at once
 	case "C07":
-		p.FaultP = 0.08 // a few worlds with disk faults: the narrow oracles of DESIGN.md 5.3 apply to the calls they hit
+		p.PreLinkP = 0.05 // a snapshot file that is a symbolic link to a golden file kept elsewhere
+		p.FaultP = 0.08   // a few worlds with disk faults: the narrow oracles of DESIGN.md 5.3 apply to the calls they hit
 		p.NonTestNames = true
 		p.Alpha = Alpha{Plain: 9, Framing: 1, Structured: 1}
 		p.Envs = allEnvs
@@ -165,6 +173,7 @@ func Preset(prop string, adversarial bool, r *scen.Rand) *Params {
 		p.ReplayP = 0.8
 		p.APIw = allAPIs(3, 2)
 	case "C09":
+		p.PreLinkP = 0.05 // a snapshot file that is a symbolic link to a golden file kept elsewhere
 		p.NonTestNames = true
 		p.Alpha = Alpha{Plain: 10, Framing: 0, Structured: 1}
 		p.Envs = allEnvs
@@ -183,7 +192,8 @@ func Preset(prop string, adversarial bool, r *scen.Rand) *Params {
 		p.CleanAgainP = 0.3
 		p.APIw = allAPIs(3, 2)
 	case "C10":
-		p.FaultP = 0.08 // a few worlds with disk faults: the narrow oracles of DESIGN.md 5.3 apply to the calls they hit
+		p.PreLinkP = 0.05 // a snapshot file that is a symbolic link to a golden file kept elsewhere
+		p.FaultP = 0.08   // a few worlds with disk faults: the narrow oracles of DESIGN.md 5.3 apply to the calls they hit
 		p.Counts = []int{1, 1, 1, 2, 3}
 		p.Alpha = Alpha{Plain: 6, Framing: 4, Structured: 1}
 		p.Envs = []map[string]string{envOff, envClean, envUpd}
@@ -229,7 +239,8 @@ func Preset(prop string, adversarial bool, r *scen.Rand) *Params {
 		p.EditValueP = 0.4
 		p.ReplayP = 0.5
 	case "C19":
-		p.FaultP = 0.08 // a few worlds with disk faults: the narrow oracles of DESIGN.md 5.3 apply to the calls they hit
+		p.PreLinkP = 0.1 // a snapshot file that is a symbolic link to a golden file kept elsewhere
+		p.FaultP = 0.08  // a few worlds with disk faults: the narrow oracles of DESIGN.md 5.3 apply to the calls they hit
 		p.APIw = map[string]int{scen.APISSnap: 5, scen.APISJSON: 3, scen.APISnapshot: 1}
 		p.Alpha = Alpha{Plain: 4, Framing: 5, Structured: 2}
 		p.Envs = allEnvs
